@@ -5,6 +5,7 @@ CONSTANTS
   MaxEnv = 10
   MaxInc = 4
   MaxRaise = 0
+  MaxBlock = 0
 INVARIANT NoViolation
 INVARIANT Structural
 INVARIANT Bounded
